@@ -297,18 +297,18 @@ example : Spec.Sq.isNt "NT_STRICT".toList = true ∧
   decide +kernel
 
 /-- T19 every multi-operand operation (from_single_intervals, Parent(sequence.parent vs parent), Sequence.append,
-    location_relative_to, the binary location operations) x every ordered pair of the 10 parent kinds of the grid: the
+    location_relative_to, the binary location operations) x every ordered pair of the 17 parent kinds of the grid: the
     modelled parent test refuses exactly the pairs whose plain descriptors are incompatible, with a documented class. -/
-theorem parent_rule_pairs (op : POp) (i j : Nat) (hi : i < 10) (hj : j < 10) : pconsPoint op [i, j] = true :=
+theorem parent_rule_pairs (op : POp) (i j : Nat) (hi : i < nKinds) (hj : j < nKinds) : pconsPoint op [i, j] = true :=
   pcons_pairs op i j hi hj
 
-/-- T19' from_single_intervals x every ordered triple of the 10 parent kinds -/
-theorem from_single_intervals_triples (i j k : Nat) (hi : i < 10) (hj : j < 10) (hk : k < 10) :
+/-- T19' from_single_intervals x every ordered triple of the 17 parent kinds -/
+theorem from_single_intervals_triples (i j k : Nat) (hi : i < nKinds) (hj : j < nKinds) (hk : k < nKinds) :
     pconsPoint .fsi [i, j, k] = true :=
   fsi_triples i j k hi hj hk
 
 /-- T19'' for ANY operand list: from_single_intervals accepts exactly when every parent equals the first one -/
-theorem from_single_intervals_exact (k : PKey) (rest : List PKey) :
+theorem from_single_intervals_exact (k : PChain) (rest : List PChain) :
     fsiParents (k :: rest) = .ok () ↔ ∀ k' ∈ rest, k' = k :=
   fsiParents_ok_iff k rest
 
